@@ -11,6 +11,7 @@ import (
 	"net/http"
 	"net/http/httptest"
 	"os"
+	"runtime/debug"
 	"sort"
 	"strconv"
 	"strings"
@@ -178,6 +179,19 @@ type exhStats struct {
 	Objects int   `json:"objects"`
 	Ranges  int64 `json:"single_ranges_enumerated"`
 	MaxSize int   `json:"max_object_size"`
+}
+
+func (c *c05ctx) guardBegin(what string) int64 {
+	if c.guard == nil {
+		return 0
+	}
+	return c.guard.begin(what)
+}
+
+func (c *c05ctx) guardEnd(id int64) {
+	if c.guard != nil {
+		c.guard.end(id)
+	}
 }
 
 func (c *c05ctx) violate(sig, what string, w c05Witness) {
@@ -458,6 +472,23 @@ func (c *c05ctx) check(o *c05obj, specs []rspec, sep string, tcp bool, storageTo
 	wit := func(api, got string) c05Witness {
 		return c05Witness{Stack: c.stack, Shape: o.shape, API: api, Header: hdr, Sep: sep, Specs: specs, Size: int(size), Expect: ref, Got: got}
 	}
+	defer func() {
+		// a panic inside the handler / storage code under test is a finding with
+		// this case as witness, not a crash of the monitor
+		if p := recover(); p != nil {
+			msg := fmt.Sprint(p)
+			c.violate("panic:"+c.stack, "GET Range: "+hdr+" on "+o.shape.label()+" ("+c.stack+") panicked: "+msg, wit("http-or-storage", "panic: "+msg+"\n"+string(debug.Stack())))
+		}
+	}()
+	// storage API first: its readers are drained by the harness, which can tell a
+	// stalling reader (endless empty reads) deterministically; the HTTP handler
+	// would spin on such a reader forever, so the HTTP request is skipped then
+	if storageToo {
+		if stalled := c.checkStorage(o, specs, ref, hdr, sep); stalled {
+			c.r.Count("http_skipped_after_stalling_storage_reader", 1)
+			return
+		}
+	}
 	// HTTP through ServeHTTP
 	resp, err := serve(c.g.handler, path, nil, map[string]string{"Range": hdr})
 	if err != nil {
@@ -493,8 +524,32 @@ func (c *c05ctx) check(o *c05obj, specs []rspec, sep string, tcp bool, storageTo
 			}
 		}
 	}
-	if storageToo {
-		c.checkStorage(o, specs, ref, hdr, sep)
+}
+
+var errStalled = errors.New("reader keeps returning (0, nil)")
+
+// readAllGuarded is io.ReadAll that gives up after 100000 consecutive empty
+// reads without error (a deterministic stall criterion, no clock involved).
+func readAllGuarded(rd io.Reader) ([]byte, error) {
+	var out []byte
+	buf := make([]byte, 32*1024)
+	empty := 0
+	for {
+		n, err := rd.Read(buf)
+		out = append(out, buf[:n]...)
+		if err == io.EOF {
+			return out, nil
+		}
+		if err != nil {
+			return out, err
+		}
+		if n == 0 {
+			if empty++; empty > 100000 {
+				return out, errStalled
+			}
+		} else {
+			empty = 0
+		}
 	}
 }
 
@@ -537,14 +592,14 @@ func toByteRanges(specs []rspec) ([]storage.ByteRange, bool) {
 	return out, true
 }
 
-func (c *c05ctx) checkStorage(o *c05obj, specs []rspec, ref refOutcome, hdr, sep string) {
+func (c *c05ctx) checkStorage(o *c05obj, specs []rspec, ref refOutcome, hdr, sep string) (stalled bool) {
 	if !ref.Valid {
-		return
+		return false
 	}
 	brs, ok := toByteRanges(specs)
 	if !ok {
 		c.r.Count("storage_skipped_unrepresentable", 1)
-		return
+		return false
 	}
 	ctx := context.Background()
 	size := int64(len(o.content))
@@ -574,41 +629,50 @@ func (c *c05ctx) checkStorage(o *c05obj, specs []rspec, ref refOutcome, hdr, sep
 		default:
 			c.r.Count("storage_result:"+kind+":no-error", 1)
 			for _, rd := range readers {
-				_, _ = io.Copy(io.Discard, rd)
+				if _, rerr := readAllGuarded(rd); rerr == errStalled {
+					stalled = true
+				}
 			}
 			closeAll()
 		}
-		return
+		return stalled
 	}
 	if err != nil {
 		c.r.Count("storage_result:satisfiable:error", 1)
 		c.violate("storage:error-on-satisfiable-range", fmt.Sprintf("storage.GetObject(%s) on %s (%s) failed although every range is satisfiable: %v", hdr, o.shape.label(), c.stack, err), wit("error: "+err.Error()))
-		return
+		return false
 	}
 	defer closeAll()
 	c.r.Count("storage_result:satisfiable:ok", 1)
 	if obj == nil || obj.Size != size {
 		c.violate("storage:object-size-mismatch", fmt.Sprintf("GetObject reports size %v, content has %d", obj, size), wit("size mismatch"))
-		return
+		return false
 	}
 	if len(readers) != len(specs) {
 		c.violate("storage:reader-count-mismatch", fmt.Sprintf("%d readers for %d ranges", len(readers), len(specs)), wit(fmt.Sprintf("%d readers", len(readers))))
-		return
+		return false
 	}
 	for i, rd := range readers {
-		got, rerr := io.ReadAll(rd)
+		got, rerr := readAllGuarded(rd)
 		want := o.content[ref.Sat[i].Start : ref.Sat[i].End+1]
+		if rerr == errStalled {
+			c.violate("storage:reader-stalls:"+c.stack, fmt.Sprintf("range %d of %s on %s (%s): after %d of %d bytes the reader returns (0, nil) forever", i, hdr, o.shape.label(), c.stack, len(got), len(want)), wit("stalled after "+vkit.Brief(got)))
+			return true
+		}
 		if rerr != nil {
 			c.violate("storage:read-error:"+c.stack, fmt.Sprintf("reading range %d of %s on %s: %v", i, hdr, o.shape.label(), rerr), wit("read error: "+rerr.Error()))
-			return
+			return false
 		}
 		if !bytes.Equal(got, want) {
 			c.violate("storage:body-mismatch:"+c.stack, fmt.Sprintf("range %d of %s on %s (%s): reader delivered %d bytes, reference content[%d..%d] has %d", i, hdr, o.shape.label(), c.stack, len(got), ref.Sat[i].Start, ref.Sat[i].End, len(want)), wit(vkit.Brief(got)))
-			return
+			return false
 		}
 		c.r.Count("storage_bytes_compared", int64(len(got)))
 	}
+	return false
 }
+
+
 
 // ---- generators ----
 
@@ -862,13 +926,41 @@ func (c *c05ctx) makeObject(i int, sh objShape) *c05obj {
 		return nil
 	}
 	o := &c05obj{key: key, shape: sh, content: sh.content()}
-	// the reference content must be what a whole-object GET returns, otherwise
-	// C05's "current content" is unknown for this object (that is C01's subject)
-	resp, err := serve(c.g.handler, "/"+c05Bucket+"/"+key, nil, nil)
-	if err != nil || resp.Status != 200 || !bytes.Equal(resp.Body, o.content) {
-		c.r.Inconclusive(fmt.Sprintf("whole-object GET of %s on %s does not return the written content; range reference undefined", sh.label(), c.stack))
-		return nil
-	}
+	// the reference is the acknowledged written content; a whole-object GET is
+	// made once as a cross-check (its own correctness is C01's subject, so a
+	// difference is only counted here - the range checks below still run and
+	// would show the same fault through "bytes=0-")
+	func() {
+		defer func() {
+			if p := recover(); p != nil {
+				c.r.Count("whole_object_read_panicked", 1)
+			}
+		}()
+		id := c.guardBegin("C05 " + c.stack + " whole-object read of " + sh.label())
+		defer c.guardEnd(id)
+		_, readers, err := c.g.st.GetObject(context.Background(), storage.MustNewBucketName(c05Bucket), storage.MustNewObjectKey(key), nil, nil)
+		if err != nil || len(readers) != 1 {
+			c.r.Count("whole_object_read_differs_from_written_content", 1)
+			for _, rd := range readers {
+				_ = rd.Close()
+			}
+			return
+		}
+		got, rerr := readAllGuarded(readers[0])
+		_ = readers[0].Close()
+		if rerr == errStalled {
+			c.r.Count("whole_object_read_stalled", 1)
+			return
+		}
+		if rerr != nil || !bytes.Equal(got, o.content) {
+			c.r.Count("whole_object_read_differs_from_written_content", 1)
+			return
+		}
+		resp, err := serve(c.g.handler, "/"+c05Bucket+"/"+key, nil, nil)
+		if err != nil || resp.Status != 200 || !bytes.Equal(resp.Body, o.content) {
+			c.r.Count("whole_object_get_differs_from_written_content", 1)
+		}
+	}()
 	c.r.Count("objects", 1)
 	c.r.Count("objects_by_method:"+sh.Method, 1)
 	c.r.Count(fmt.Sprintf("objects_by_part_count:%d", len(sh.Parts)), 1)
